@@ -39,6 +39,10 @@ func NewSlicePool[T any](l int) (p *Pool[[]T]) {
 //
 // See [sync.Pool.Get].
 func (p *Pool[T]) Get() (v *T) {
+	if sv, ok := simPoolGet(p.pool); ok {
+		return sv.(*T)
+	}
+
 	return p.pool.Get().(*T)
 }
 
@@ -46,5 +50,9 @@ func (p *Pool[T]) Get() (v *T) {
 //
 // See [sync.Pool.Put].
 func (p *Pool[T]) Put(v *T) {
+	if simPoolPut(p.pool, v) {
+		return
+	}
+
 	p.pool.Put(v)
 }
